@@ -138,7 +138,7 @@ def degenerate_histories():
 def generate(rng, tier):
     for spec in degenerate_histories():
         yield spec
-    n = 2500 if tier == "quick" else 30000
+    n = 6000 if tier == "quick" else 30000
     for i in range(n):
         yield {"fam": "history", "seed": rng.randrange(1 << 30), "nsteps": 12 if tier == "quick" or i % 3 else 40}
 
